@@ -53,6 +53,36 @@ func cmdC10(r *RNG, n int, e *Emitter, args []string) {
 			}
 			e.Count("shape=loop")
 		}
+		huge := false
+		if i%11 == 6 {
+			huge = true
+			// a polyline with one huge segment (longer than 2^31.6: its squared length does not fit 63 bits), axis-parallel
+			// or slightly slanted, in 4 orientations, with short lead-in / lead-out segments
+			L := r.Range(3100000000, 4200000000) // squared length beyond 2^63, yet (L/2)^2 below it: the library's own int64 dot products of two pieces of such an edge still fit (beyond that the int64-product-overflow finding of C13 takes over)
+			h0 := int64(0)
+			if r.Bool() {
+				h0 = r.Range(-3000, 3000)
+			}
+			line = clip.Path64{{X: 0, Y: 0}, {X: L, Y: h0}}
+			if r.Bool() {
+				line = append(clip.Path64{{X: -int64(3 * S), Y: int64(S)}}, line...)
+			}
+			if r.Bool() {
+				line = append(line, clip.Point64{X: L + int64(3*S), Y: h0 - int64(S)})
+			}
+			// near-vertical only: the certificate's cover works on horizontal slabs between vertex levels and bisects
+			// cells, so a near-horizontal cell 10^11 units long next to the end caps would need ~35 levels of bisection
+			for j := range line {
+				x, y := line[j].X, line[j].Y
+				if (i/11)%2 == 0 {
+					x, y = -y, x
+				} else {
+					x, y = y, -x
+				}
+				line[j] = clip.Point64{X: x, Y: y}
+			}
+			e.Count("shape=huge-segment")
+		}
 		jt := clip.JoinType(r.Intn(4))
 		et := []clip.EndType{clip.Butt, clip.SquareET, clip.RoundET, clip.Joined}[r.Intn(4)]
 		delta := S * (0.05 + 0.25*r.Float())
@@ -66,7 +96,7 @@ func cmdC10(r *RNG, n int, e *Emitter, args []string) {
 		// line under test are examined, so each path must get its own stroke whatever its position in the call
 		call := clip.Paths64{line}
 		ncomp := 0
-		if len(line) >= 2 && r.Intn(3) == 0 {
+		if len(line) >= 2 && r.Intn(3) == 0 && !huge { // (a huge segment would run through the companions)
 			ncomp = 1 + r.Intn(2)
 			pos := r.Intn(ncomp + 1)
 			call = nil
